@@ -110,7 +110,15 @@ public:
     void solve(const S* x, S* y) const
     {
         seam_before(m_ctl, M_SOLVE, x, y, sizeof(S));
-        m_inner->solve(x, y);
+        try
+        {
+            m_inner->solve(x, y);
+        }
+        catch (...)
+        {
+            m_ctl->native_throws++;  // the real wrapper itself failed (SparseRegularInverse: CG did not converge)
+            throw;                   // re-thrown unchanged: the very same exception object
+        }
         seam_after(m_ctl, M_SOLVE, y, sizeof(S));
     }
     void lower_triangular_solve(const S* x, S* y) const
